@@ -10,15 +10,21 @@ namespace VrfRtc
 structure TblWF (t : Tbl) : Prop where
   /-- a destination holds paths of its own NLRI only -/
   nlri_ok   : ∀ n p, p ∈ t.dest n → p.nlri = n
-  /-- announcements are told apart by their uid (pointer identity in the Go code) -/
+  /-- path objects are told apart by their uid (pointer identity in the Go code) -/
   uid_uniq  : ∀ n n' p q, p ∈ t.dest n → q ∈ t.dest n' → p.uid = q.uid → p = q
+  /-- at most one stored path per announcement (root originInfo): a clone replaces its sibling -/
+  root_uniq : ∀ n n' p q, p ∈ t.dest n → q ∈ t.dest n' → p.root = q.root → p = q
   /-- at most one path per (source, path-id) in a destination -/
   slot_uniq : ∀ n, (t.dest n).Pairwise (fun p q => sameSlot p q = false)
   /-- non-empty destinations are enumerated by the scans -/
   listed    : ∀ n, t.dest n ≠ [] → n ∈ t.nlris
 
-/-- a new announcement carries a uid no stored path has (NewPath allocates a new originInfo) -/
-def Fresh (t : Tbl) (p : VPath) : Prop := ∀ n q, q ∈ t.dest n → q.uid ≠ p.uid
+/-- what may be fed to the table as an announcement: a new announcement (new object, new root:
+    NewPath allocates a new originInfo), the very same stored object again, or a new clone of the
+    announcement whose stored path it replaces (same source, path-id and NLRI) -/
+def Fresh (t : Tbl) (p : VPath) : Prop :=
+  (∀ n q, q ∈ t.dest n → q.uid = p.uid → q = p) ∧
+  (∀ n q, q ∈ t.dest n → q.root = p.root → (q.nlri = p.nlri ∧ sameSlot p q = true))
 
 /-- the RT index is exactly: per RT key, the stored paths carrying it that are the best path of
     their destination or have a non-zero path-id -/
